@@ -112,7 +112,7 @@ CHECKS["C20"] = dict(level="proof", engine="pyvc",
     design_ref="DESIGN.md section 4 C20")
 CHECKS["C06"] = dict(level="proof", engine="pyvc",
     text="DenseOutput under contract with symbolic-length lists: add_interpolant keeps the ordering/coverage and cache invariants, lookup (value, gradient, vector) answers every query in the integrated range from the piece "
-         "whose interval contains it, remove_interpolant drops the oldest / newest piece per direction (both run directions, pieces may leave gaps); integrate() with dense output kept (forward): exactly one piece per recorded step spanning [t_i, t_i+1] on normal and exceptional exit and across "
+         "whose interval contains it, remove_interpolant drops the oldest / newest piece per direction (both run directions, pieces may leave gaps); integrate() with dense output kept (both run directions, the real add_interpolant on symbolic-length lists): exactly one piece per recorded step spanning [t_i, t_i+1] on normal and exceptional exit and across "
          "continued calls; dense_output() builds the Hermite piece from (t, y, f) at both ends; the integrators leave initial_rhs == rhs(t, y) and final_rhs == rhs(t + dTime, y + dState) whatever the previous call's end point "
          "(with C17: nodes reproduced, C^1 joins with slopes equal to the right-hand side). The backward lookup defect F11 was repaired (fix: commit edcff3c) and its obligations are now discharged.",
     note="O(h^4) between nodes = cubic exactness (C17) + Peano kernel theorem (A8); Richardson wrappers only natively; events in C07-C09; A1",
